@@ -157,6 +157,11 @@ def gen_cases(spec, ctx):
             n = r.randint(2, 6)
             lst = [gen.gdoc(r, gen.HOSTILE, 1, 3, 3) for _ in range(n)]
             i, j = r.sample(range(n), 2)
+            if r.random() < 0.2:
+                # items of size zero (null, the empty string, empty containers) among scalars: removing and re-inserting one
+                # costs least, so a swap of two *different* ones is where "costs something" is closest to failing
+                lst = [gen.gscalar(r, gen.HOSTILE) for _ in range(n)]
+                lst[i], lst[j] = r.sample([None, "", [], {}], 2)
             if typed_eq(lst[i], lst[j]) or _twins(lst[i], lst[j]):
                 continue
             depth = r.randint(0, 2)
